@@ -193,9 +193,50 @@ def handleRound (input impl : Json) : R Reply := do
                    else if !s4 then "reports: " ++ C04.explain ncfg got.agreed reps else "",
            nontrivial := !got.agreed.isEmpty || !got.surfaced.flatten.isEmpty, tags := "net-round" :: (roundTags rd want ++ (if got.agreed.any (fun r => decide (r.gas > 5000000)) then ["over-limit-upkeep-agreed"] else [])) }
 
+/-! ### sampling coverage runs (`kind = cover`)
+
+The harness states the run's parameters (members, registry size, the sampling ratio the factory computes from the
+off-chain config as an exact fraction, the sample size it derives from it) and what it saw (per live member: sampling
+ticks, the registry positions the sampling flow handed to the pipeline, smallest / largest tick; which eligible upkeeps
+were reported).  The model side: `Sample.sampleSize` of the ratio must be the stated size and no tick may hand on more
+than that (correspondence); the clauses F1–F3 of `Spec/C09` are the oracle. -/
+def handleCover (input impl : Json) : R Reply := do
+  let members ← listOf (fun m => do
+      pure ({ id := ← natF m "id", ticks := ← natF m "ticks", covered := ← natList (fieldD m "covered" .null),
+              minTick := ← natF m "minTick", maxTick := ← natF m "maxTick", upMs := ← natF m "upMs" } : CoverMember))
+      (fieldD impl "members" .null)
+  let c : CoverRun :=
+    { n := ← natF input "n", f := ← natF input "f", k := ← natF input "k", num := ← natF input "ratioNum",
+      den := ← natF input "ratioDen", size := ← natF input "size", eligible := ← natList (fieldD input "eligible" .null),
+      slack := ← natF input "slack", members := members, reported := ← natList (fieldD impl "reported" .null),
+      roundTicks := ← natF impl "roundTicks" }
+  let want := Sample.sampleSize c.num c.den c.k
+  let tooMany := c.members.filter (fun m => decide (m.maxTick > want))
+  let enough := decide (2 * c.f + 1 ≤ c.members.length)
+  let agree := decide (want = c.size) && tooMany.isEmpty && enough
+  let diff := if want != c.size then s!"model: OfInt of ratio {c.num}/{c.den} over {c.k} upkeeps is {want}; harness: {c.size}"
+    else if !enough then s!"only {c.members.length} live members for f = {c.f}"
+    else match tooMany.head? with
+      | some m => s!"member {m.id}: a tick of the sampling flow handed {m.maxTick} upkeeps to the pipeline; the model's sample has {want} of {c.k}"
+      | none => ""
+  let ok := coverSpec c
+  let cuts := decide (c.size < c.k)
+  let due := c.members.all (fun m => Sample.coverageDue c.k c.size c.members.length m.ticks) &&
+    (reportDue c || c.eligible.all (fun i => c.reported.contains i))
+  let tags := ["net-cover"] ++ (if cuts then ["ratio-cuts"] else ["ratio-does-not-cut"]) ++
+    (if due then ["cover-due"] else ["cover-not-due"]) ++
+    (if c.members.length < c.n then ["cover-members-down"] else []) ++
+    (if c.eligible.contains (c.k - 1) then ["cover-tail-eligible"] else []) ++
+    (if c.eligible.isEmpty then ["cover-nothing-eligible"] else [])
+  pure { agree := agree, diff := diff, specModel := true, specImpl := ok, fail := if ok then "" else coverExplain c,
+         nontrivial := cuts && due, tags := tags,
+         key := s!"cover-{c.n}-{c.f}-{c.members.length}-{c.k}-{c.size}-{c.eligible.length}" }
+
 def handle (input impl : Json) : R Reply := do
   let kind ← strF input "kind"
-  if kind == "round" then
+  if kind == "cover" then
+    handleCover input impl
+  else if kind == "round" then
     handleRound (← field input "round") impl
   else
     let tj ← field input "trace"
